@@ -262,3 +262,20 @@ Definition imap_start (pool_size : nat) (use_result_objects : bool) (items : lis
          | None => imap pool_size use_result_objects items arrival split
          end
   end.
+
+(* ---- (g) the blocking get of _fetch_results:
+       while not self.task_queue.empty() or not self.result_queue.empty():
+           task_result = self.result_queue.get()
+   Queue state seen by the consumer: untaken = tasks still in task_queue; running = taken by a worker, result not
+   yet put; undone = result put, task_done() not yet called; inq = results waiting in result_queue.
+   `get()` returns (now or later) iff a result is in the queue or will still be put, i.e. some task is untaken
+   (a live worker will take it: at least one worker was started, see (f)) or running. *)
+Record qstate := { untaken : nat; running : nat; undone : nat; inq : nat }.
+
+Definition fetch_cond (unfinished_variant : bool) (s : qstate) : bool :=
+  if unfinished_variant
+  then negb (Nat.eqb (untaken s + running s + undone s) 0) || negb (Nat.eqb (inq s) 0)   (* task_queue.unfinished_tasks *)
+  else negb (Nat.eqb (untaken s) 0) || negb (Nat.eqb (inq s) 0).                          (* the code: not empty() *)
+
+Definition get_can_return (s : qstate) : bool :=
+  negb (Nat.eqb (inq s) 0) || negb (Nat.eqb (untaken s + running s) 0).
